@@ -20,6 +20,28 @@ import (
 	"golang.org/x/tools/go/ssa"
 )
 
+// sign tracing: by environment, or switched on for one watched query (GMSA_WATCH)
+var signWatchOn bool
+var signWatch = os.Getenv("GMSA_WATCH")
+var signTraceEnv = os.Getenv("GMSA_SIGN_TRACE")
+
+func signTrace2() bool { return signWatchOn || signTraceEnv == "2" }
+func signTrace1() bool { return signWatchOn || signTraceEnv != "" }
+
+var watchedX *Extractor
+var watchedC *RF
+var watchedA []Assumption
+
+// evalTrace: when GMSA_TRACE_EVAL names a file, every condition evaluation is
+// logged there (a debugging aid for finding order-dependent verdicts).
+var evalTrace *os.File
+
+func init() {
+	if p := os.Getenv("GMSA_TRACE_EVAL"); p != "" {
+		evalTrace, _ = os.Create(p)
+	}
+}
+
 type Extractor struct {
 	W               *World
 	S               *Sym
@@ -32,7 +54,7 @@ type Extractor struct {
 	BenignWriteTags map[string]bool
 	caseBudget      int
 	caseAssume      []Assumption   // standing assumptions of EquivByCasesUnder
-	caseWorkLimit int64 // bound of the running case analysis on the work clock
+	caseWorkLimit   int64          // bound of the running case analysis on the work clock
 	caseNotNaN      map[AtomID]int // quantities that are not NaN in the case being analysed
 	idivDepth       int            // recursion guard of evalIdivCmp
 	inSign          bool
@@ -131,8 +153,48 @@ func (fc *FC) errf(format string, args ...interface{}) {
 }
 
 // EvalCond decides a condition under assumptions (Unknown when it cannot).
-func (x *Extractor) EvalCond(c *RF, assume []Assumption) Tri {
+func (x *Extractor) EvalCond(c *RF, assume []Assumption) (res Tri) {
 	workUnits += 4
+	if signWatch != "" && watchedX == nil && strings.Contains(c.String(), signWatch) && len(assume) == 2 && x.idivDepth == 0 {
+		ok := true
+		for _, a := range assume {
+			if a.Cond == nil || a.True {
+				ok = false
+			}
+		}
+		if ok {
+			watchedX, watchedC, watchedA = x, c, append([]Assumption{}, assume...)
+		}
+	}
+	if signWatch != "" && !signWatchOn && strings.Contains(c.String(), signWatch) {
+		signWatchOn = true
+		fmt.Fprintf(os.Stderr, "WATCH-BEGIN %s\n", clip(c.String(), 300))
+		for _, a := range assume {
+			if a.Cond != nil {
+				fmt.Fprintf(os.Stderr, "  WATCH-ASSUME %v %s\n", a.True, clip(a.Cond.String(), 300))
+			}
+		}
+		defer func() {
+			signWatchOn = false
+			fmt.Fprintf(os.Stderr, "WATCH-END => %d\n", res)
+		}()
+	}
+	if evalTrace != nil {
+		defer func() {
+			var sb strings.Builder
+			sb.WriteString(c.String())
+			sb.WriteString(" | ")
+			var as []string
+			for _, a := range assume {
+				if a.Cond != nil {
+					as = append(as, fmt.Sprintf("%v:%s", a.True, a.Cond.String()))
+				}
+			}
+			sort.Strings(as)
+			sb.WriteString(strings.Join(as, " & "))
+			fmt.Fprintf(evalTrace, "%s => %d\n", sb.String(), res)
+		}()
+	}
 	s := x.S
 	assume = expandAssumptions(assume)
 	assume = x.unitPropagate(assume)
@@ -327,7 +389,7 @@ func (x *Extractor) idivLinear(name string, d *RF, assume []Assumption) *RF {
 	if c, ok := d.D.isConst(); !ok || c.Cmp(big.NewRat(1, 1)) != 0 {
 		return nil
 	}
-	for _, t := range d.N.terms {
+	for _, t := range d.N.sortedTerms() {
 		if len(t.vars) != 1 || t.exps[0] != 1 {
 			continue
 		}
@@ -2506,7 +2568,7 @@ func (x *Extractor) evalBySign(name string, d *RF, assume []Assumption) Tri {
 	x.signSteps, x.signLimit = 0, 250
 	defer func() { x.signActive = false }()
 	pos, neg := g.Pos(d), g.Pos(d.Neg()) // l>r, l<r
-	if os.Getenv("GMSA_SIGN_TRACE") != "" && (pos || neg) {
+	if signTrace1() && (pos || neg) {
 		fmt.Fprintf(os.Stderr, "SIGN %s d=%s pos=%v neg=%v used=%v\n  facts:", name, clip(d.String(), 300), pos, neg, g.Used)
 		for _, f := range g.facts {
 			fmt.Fprintf(os.Stderr, " [%v]", f)
